@@ -74,3 +74,30 @@ Proof.
     cbn in H. inversion H; subst. exists b0, b. repeat split; auto.
     intros ->. vm_compute in E. discriminate.
 Qed.
+
+(* in a batch every RESTORE carries the expiry derived from the PTTL reply of ITS OWN key and that key's own payload *)
+Lemma batch_uses_own_ttl : forall l cmds cmd,
+  batch_cmds l = Some cmds -> In cmd cmds ->
+  exists key p raw, In (key, Integer p, Bulk raw) l /\ p <> PTTL_KEY_NOT_FOUND /\ cmd = [RESTORE; key; ttl_restore p; raw].
+Proof.
+  intros l cmds cmd H Hin. unfold batch_cmds in H.
+  destruct (existsb _ _); [discriminate|]. inversion H; subst cmds. clear H.
+  apply in_flat_map in Hin. destruct Hin as [[k e] [Hin1 Hin2]].
+  apply in_map_iff in Hin1. destruct Hin1 as [[[key pr] dr] [Heq Hinl]].
+  cbn [fst snd] in Heq. inversion Heq; subst k e. cbn [fst snd] in Hin2.
+  destruct (restore_cmd key (scan_entry pr dr)) as [c|] eqn:E; [|destruct Hin2].
+  destruct Hin2 as [<-|[]].
+  destruct (paths_use_ttl_restore key pr dr c (or_introl E)) as (p & raw & -> & -> & Hp & ->).
+  exists key, p, raw. auto.
+Qed.
+
+Lemma batch_keeps_order : forall l cmds, batch_cmds l = Some cmds ->
+  map (fun c => nth 1 c []) cmds = map (fun x => fst (fst x)) (filter (fun x => match restore_cmd (fst (fst x)) (scan_entry (snd (fst x)) (snd x)) with Some _ => true | None => false end) l).
+Proof.
+  intros l cmds H. unfold batch_cmds in H. destruct (existsb _ _); [discriminate|]. inversion H; subst cmds. clear H.
+  induction l as [|[[key pr] dr] l IH]; cbn [map flat_map filter fst snd]; [reflexivity|].
+  destruct (restore_cmd key (scan_entry pr dr)) as [c|] eqn:E.
+  - cbn [app map]. rewrite IH. f_equal.
+    destruct (paths_use_ttl_restore key pr dr c (or_introl E)) as (p & raw & _ & _ & _ & ->). reflexivity.
+  - cbn [app]. exact IH.
+Qed.
